@@ -356,7 +356,7 @@ def run(ctx):
         batches = [seqs]
     else:
         seqs = corpus_seqs()
-        n = 36 if quick else 480
+        n = 64 if quick else 240
         for _ in range(n):
             maxlen = 30 if rng.below(3) != 0 else 8
             seqs.append(gen_sequence(rng, 0, maxlen))
